@@ -206,6 +206,8 @@ def run_scripted(chk: Check, req, name, seed=0, timeout=300.0):
     for f, key in (("rdm1_afqmc.npz", "rdm1"), ("rdm2_afqmc.npz", "rdm2")):
         if (d / f).exists():
             out[f] = np.load(d / f)[key]
+    s0 = systems[0]
+    out["trial_obs_f32"] = float(np.float32(np.sum(np.asarray(s0["trial"].get_rdm1(s0["wave_data"])) * np.asarray(s0["ham_data"]["h1"]))))
     m = re.search(r"Number of large deviations:\s*(-?\d+)", out["stdout"])
     out["large"] = int(m.group(1)) if m else None
     m = re.search(r"Number of outliers in post:\s*(-?\d+)", out["stdout"])
@@ -224,7 +226,10 @@ def compare_scripted(req, states, obs):
     if not obs["ok"]:
         return [("DriverRuns", f"driver.afqmc raised / hung: {obs['describe']}")]
     st0 = states[0]
-    table = np.array([[float(x) for x in row[:3]] for row in st0["table"]])
+    # 2rdm mode: the observable column is ALWAYS the trial's own observable (a float known to the harness); the model
+    # carries it as the integer TrialObs
+    omap = (lambda x: obs["trial_obs_f32"] if ad == "2rdm" else float(x))
+    table = np.array([[float(row[0]), float(row[1]), omap(row[2])] for row in st0["table"]])
     raw = obs.get("samples_raw.dat")
     if raw is None or raw.shape != table.shape or not np.array_equal(raw, table):
         bad.append(("RankOrdered/RawComplete", f"samples_raw.dat {None if raw is None else raw.tolist()} is not the table "
@@ -245,7 +250,7 @@ def compare_scripted(req, states, obs):
     clean = obs.get("samples.dat")
     match = None
     for st in states:
-        c = np.array([[float(x) for x in row] for row in st["clean"]]).reshape(-1, 3)
+        c = np.array([[float(row[0]), float(row[1]), omap(row[2])] for row in st["clean"]]).reshape(-1, 3)
         if clean is not None and clean.shape == c.shape and np.array_equal(clean, c):
             match = st
             break
@@ -269,6 +274,22 @@ def compare_scripted(req, states, obs):
     if gerr is None or not any(abs(float(gerr) - a) <= 1e-7 * max(1.0, a) for a in accept):
         bad.append(("ReportedError", f"returned error bar {gerr}; the blocking analysis of the kept rows admits {accept} "
                     f"(per-block-size errors {[x ** 0.5 for x in errs]}, 0 where it has no plateau)"))
+    if ad == "2rdm":
+        kept = {tuple(x) for x in match["rdm_kept"]}
+        num, den = 0.0, 0.0
+        for i, row in enumerate(match["table"]):
+            b, r = i // R + 1, i % R + 1
+            if (b, r) in kept:
+                w, _, _, nrm = req["raw"][b - 1][r - 1]
+                num += w * float(np.float32(nrm))
+                den += w
+        got = obs.get("rdm2_afqmc.npz")
+        want = np.zeros((4, 4, 4, 4))
+        if den:
+            want[0, 0, 0, 0] = 2.0 * num / den
+        if got is None or den == 0 or np.max(np.abs(got - want)) > 1e-5 * max(1.0, np.max(np.abs(want))):
+            bad.append(("RdmIsWeightedMeanOfKeptSamples", f"rdm2_afqmc.npz is not twice the weight-average of the 2-RDM samples "
+                        f"{sorted(kept)} that survive both outlier rejections"))
     if ad == "reverse":
         kept = {tuple(x) for x in match["rdm_kept"]}
         rows = [(row, b, r) for i, row in enumerate(match["table"]) for (b, r) in [(i // R + 1, i % R + 1)] if (b, r) in kept]
@@ -320,6 +341,8 @@ def scripted_requests(chk: Check):
         add(R, nblk, "none", lambda b, r: [W(), E(), 0, 0])
         add(R, nblk, "forward", fwd)
         add(R, nblk, "reverse", rev)
+    for R, nblk in ((1, 6), (2, 4)) + (((3, 4),) if big else ()):
+        add(R, nblk, "2rdm", lambda b, r: [W(), E(), 0, int(rng.choice([5, 6, 7, 400]))])
     add(2, 25, "none", lambda b, r: [1, int(rng.integers(0, 2)), 0, 0])          # dumps every 2 blocks
     add(1, 31, "forward", lambda b, r: [1, int(rng.integers(0, 2)), int(rng.integers(0, 2)), 0])     # every 3
     if big:
